@@ -31,7 +31,7 @@ func init() {
 	register(&PropertyDef{
 		ID:          "C17",
 		Title:       "Rendezvous points are deterministic, agreed between peers, and rotate on time",
-		Explanation: "Decides, from the type-checked SSA of /repo and without executing it: (D1) by a backward, order-aware dependency query, that the digest returned by GenerateRendezvousPointForPeriod depends on each of topic, seed and date and on no clock, randomness or mutable package state, that on the way from Time.Unix* to the MAC input the period start is never converted to an integer type narrower than 64 bits (int/uint count as narrow: 32-bit platforms) and that a constant-bounds PutUint64 region is entirely inside the bytes written to the hash (a hand-written shift/mask encoder is not modelled), and that RoundTimePeriod/NextTimePeriod are pure functions of (date, interval); (D2) by abstract evaluation over the ordering of deadline and clock (representatives: deadline 2 s / 1 h before and after now), that Point.IsExpired is true exactly for a passed deadline and Point.TTL has the sign of deadline-now; (D3) by abstract evaluation over a period lattice (instant -> period index relative to a base instant, aligned to the period start or not), with IsExpired/TTL replaced by the contract D2 checks: NextTimePeriod is RoundTimePeriod plus one interval for either sign of the interval; NewRendezvousPointForPeriod digests (topic, seed, start of the period containing its time argument), sets the deadline to the end of that period and stores topic, seed and owner unchanged; NextPoint of an expired point builds the point of the period containing the clock with the same topic and seed; every exported lookup returns on a hit the cached point while it is live and, once it is expired, a newly built point of the current period that has been passed to the function storing points in both caches, and refuses a miss with an error; structurally: points are stored in both caches on the same path, under their own topic and their own encoded rotation value; the raw-rotation lookup encodes exactly like Point.RotationTopic; cache entries are deleted only in timer callbacks (never synchronously on the rotation path, never with a constant delay <= 0), only from the rotation cache, only under the key of the replaced point; every cache access holds the cache mutex in the required mode, including in callers and the timer callback; (D4) Marshal resolves the point for the message address, fails when the lookup fails, and sends that point's raw rotation value; Unmarshal (in its own body or in a module function it calls, depth <= 2, with the payload parameter and the error traced through the calls) looks up the RawRotation of the message decoded from the payload, fails on every path when the lookup fails, and opens the sealed box under the resolved point's topic; the store-opening path registers rotation and shared key under the same topic, and from every registration of the shared key (which overwrites) no successful return is reachable without RegisterRotation except on the equal side of a comparison of the cached point's Seed() with the seed being registered; (D5) every site that rebuilds a point for time.Now() behind a test of a point's deadline (swiper announce/watch loops, NextPoint) is reached on the deadline-passed side of the test; (D6) at every module call site of a lookup by rotation value (the lookups that read the rotation cache), no branch whose condition is computed from both the value looked up and the returned point's rotation value (directly or through a module helper) has a side that only fails: the lookup answers a previous-period value with the current point, so such a rejection would cancel the grace period for that consumer. (D7) in every loop outside the rendezvous package that renews a point (constructor, NextPoint or a lookup called on a CFG cycle), each topic handed to the discovery service in that loop (string argument of an exported tinder.Service method, directly, through a module helper parameter, or through a struct field that another function passes on) derives from a renewal call of that loop, following locals and captured variables through all their stores; a topic fixed outside the loop is reported; a wait received from inside such a loop (Done() of a context.WithDeadline/WithTimeout, time.Sleep, time.After) whose deadline or duration is the point's Deadline()/TTL() plus a duration of positive sign (constants, negation, products, initial value of a module package variable) is reported, a wait not waited on in the loop or of undecided sign is not claimed (flow-insensitive: a topic computed in the loop before the renewal of the same iteration is not distinguished). Not decided: the arithmetic inside RoundTimePeriod (floor to a multiple of the interval; covered by the project's unit test), HMAC/SHA-256 strength, agreement across real clocks and clock skew, the length of the grace period (only that it is not zero by construction), the cadence of the swiper loops, behaviour for intervals below one second.",
+		Explanation: "Decides, from the type-checked SSA of /repo and without executing it: (D1) by a backward, order-aware dependency query, that the digest returned by GenerateRendezvousPointForPeriod depends on each of topic, seed and date and on no clock, randomness or mutable package state, that on the way from Time.Unix* to the MAC input the period start is never converted to an integer type narrower than 64 bits (int/uint count as narrow: 32-bit platforms) and that a constant-bounds PutUint64 region is entirely inside the bytes written to the hash (a hand-written shift/mask encoder is not modelled), and that RoundTimePeriod/NextTimePeriod are pure functions of (date, interval); (D2) by abstract evaluation over the ordering of deadline and clock (representatives: deadline 2 s / 1 h before and after now), that Point.IsExpired is true exactly for a passed deadline and Point.TTL has the sign of deadline-now; (D3) by abstract evaluation over a period lattice (instant -> period index relative to a base instant, aligned to the period start or not), with IsExpired/TTL replaced by the contract D2 checks: NextTimePeriod is RoundTimePeriod plus one interval for either sign of the interval; NewRendezvousPointForPeriod digests (topic, seed, start of the period containing its time argument), sets the deadline to the end of that period and stores topic, seed and owner unchanged; NextPoint of an expired point builds the point of the period containing the clock with the same topic and seed; every exported lookup returns on a hit the cached point while it is live and, once it is expired, a newly built point of the current period that has been passed to the function storing points in both caches, and refuses a miss with an error; structurally: points are stored in both caches on the same path, under their own topic and their own encoded rotation value; the raw-rotation lookup encodes exactly like Point.RotationTopic; cache entries are deleted only in timer callbacks (never synchronously on the rotation path, never with a constant delay <= 0), only from the rotation cache, only under the key of the replaced point; every cache access holds the cache mutex in the required mode, including in callers and the timer callback; (D4) Marshal resolves the point for the message address, fails when the lookup fails, and sends that point's raw rotation value; Unmarshal (in its own body or in a module function it calls, depth <= 2, with the payload parameter and the error traced through the calls) looks up the RawRotation of the message decoded from the payload, fails on every path when the lookup fails, and opens the sealed box under the resolved point's topic; the store-opening path registers rotation and shared key under the same topic, and from every registration of the shared key (which overwrites) no successful return is reachable without RegisterRotation except on the equal side of a comparison of the cached point's Seed() with the seed being registered; (D5) every site that rebuilds a point for time.Now() behind a test of a point's deadline (swiper announce/watch loops, NextPoint) is reached on the deadline-passed side of the test; (D6) at every module call site of a lookup by rotation value (the lookups that read the rotation cache), no branch whose condition is computed from both the value looked up and the returned point's rotation value (directly or through a module helper) has a side that only fails: the lookup answers a previous-period value with the current point, so such a rejection would cancel the grace period for that consumer. (D7) in every loop outside the rendezvous package that renews a point (constructor, NextPoint or a lookup called on a CFG cycle), each topic handed to the discovery service in that loop (string argument of an exported tinder.Service method, directly, through a module helper parameter, or through a struct field that another function passes on) derives from a renewal call of that loop, following locals and captured variables through all their stores; a topic fixed outside the loop is reported; a wait received from inside such a loop (Done() of a context.WithDeadline/WithTimeout, time.Sleep, time.After) whose deadline or duration is the point's Deadline()/TTL() plus a duration of positive sign (constants, negation, products, initial value of a module package variable) is reported, a wait not waited on in the loop or of undecided sign is not claimed (flow-insensitive: a topic computed in the loop before the renewal of the same iteration is not distinguished). Indirections resolved by the structural clauses: a cache map handed to a module helper as an argument, or obtained by calling a getter statically or through a function value stored in a struct literal / package-level selector value / parameter (the origin of an access is the function in which the selector became known); the receiver fields of a method value handed to time.AfterFunc, captured variables and parameters of unexported helpers (to the call sites) when deciding which point a clean-up key belongs to; module helpers that return a point they renew themselves (renewal loops), an unexported helper holding the expiry test standing for each of its callers (D5). Not decided: the arithmetic inside RoundTimePeriod (floor to a multiple of the interval; covered by the project's unit test), HMAC/SHA-256 strength, agreement across real clocks and clock skew, the length of the grace period (only that it is not zero by construction), the cadence of the swiper loops, behaviour for intervals below one second.",
 		Trusted:     []string{"golang.org/x/tools go/packages+go/ssa (v0.29.0)", "semantics of package time (Now/Until/Since/Sub/After/Before/Add/Unix*), crypto/hmac, encoding/binary, encoding/base64 as documented", "the checker's abstract evaluator (absint.go)"},
 		Assumptions: []string{"dependencies behave as documented; only module code is analysed", "rotation intervals are whole seconds >= 1 s (the quantifier of the property)", "D3 assumes the contract of IsExpired/TTL that D2 checks"},
 		Floors:      map[string]int{"D1": 4, "D2": 2, "D3": 16, "D4": 8, "D5": 3, "D6": 2, "D7": 4},
@@ -1684,6 +1684,7 @@ func c17Caches(c *Ctx, a *c17Anchors) *c17CacheInfo {
 	// module function is followed into that function's parameter
 	var uses func(v ssa.Value, f int, origin *ssa.Function, depth int)
 	visited := map[[3]any]bool{}
+	getters := map[*ssa.Function]int{}
 	uses = func(v ssa.Value, f int, origin *ssa.Function, depth int) {
 		k := [3]any{v, f, origin}
 		if v.Referrers() == nil || visited[k] || depth > 3 {
@@ -1701,6 +1702,10 @@ func c17Caches(c *Ctx, a *c17Anchors) *c17CacheInfo {
 			case *ssa.Range:
 				ac.Kind, ac.Write = "range", false
 			case *ssa.DebugRef:
+				continue
+			case *ssa.Return:
+				// a function that hands the cache map out: its callers are the users
+				getters[fn] = f
 				continue
 			case *ssa.Phi:
 				uses(u, f, origin, depth)
@@ -1753,6 +1758,46 @@ func c17Caches(c *Ctx, a *c17Anchors) *c17CacheInfo {
 			}
 		}
 	}
+	// maps obtained by calling a getter, statically or through a function value that resolves
+	// (struct literal, package-level selector value, parameter) to a getter: the origin is the
+	// function in which the getter became known
+	if len(getters) > 0 {
+		for _, fn := range c.W.ModFuncs {
+			if p := fnPkg(fn); p == nil || p.Path() != c17PkgRdv {
+				continue
+			}
+			for _, b := range fn.Blocks {
+				for _, in := range b.Instrs {
+					call, ok := in.(*ssa.Call)
+					if !ok || call.Common().IsInvoke() {
+						continue
+					}
+					if m, isMap := call.Type().Underlying().(*types.Map); !isMap || !isNamed(m.Elem(), c17PkgRdv, "Point") {
+						continue
+					}
+					if g := staticCallee(call.Common()); g != nil {
+						if f, ok := getters[g]; ok {
+							uses(call, f, fn, 0)
+						}
+						continue
+					}
+					rz := newC17Resolver(c.W)
+					for _, res := range rz.val(call.Common().Value, fn, 0) {
+						var g *ssa.Function
+						switch t := res.V.(type) {
+						case *ssa.Function:
+							g = t
+						case *ssa.MakeClosure:
+							g, _ = t.Fn.(*ssa.Function)
+						}
+						if f, ok := getters[g]; ok && g != nil {
+							uses(call, f, res.At, 0)
+						}
+					}
+				}
+			}
+		}
+	}
 	for _, fn := range c.W.ModFuncs {
 		if len(ci.acc[fn]) > 0 {
 			ci.funcs = append(ci.funcs, fn)
@@ -1780,6 +1825,356 @@ func c17Caches(c *Ctx, a *c17Anchors) *c17CacheInfo {
 	}
 	ci.topicF, ci.rotF = role("PointForTopic"), role("PointForRotation")
 	return ci
+}
+
+// ---------------------------------------------------------------------------
+// value resolution: follow a value back to its concrete definitions through locals, struct
+// fields (composite literals, package-level struct variables set by the initializer),
+// parameters (to the arguments at the module call sites), captured variables and bound
+// receivers of method values.
+
+type c17Res struct {
+	V  ssa.Value
+	At *ssa.Function // the function in which the value became concrete
+}
+
+type c17Resolver struct {
+	w    *World
+	seen map[[3]any]bool
+	mk   map[*ssa.Function][]*ssa.MakeClosure
+}
+
+func newC17Resolver(w *World) *c17Resolver {
+	return &c17Resolver{w: w, seen: map[[3]any]bool{}}
+}
+
+func (rz *c17Resolver) closuresOf(fn *ssa.Function) []*ssa.MakeClosure {
+	if rz.mk == nil {
+		rz.mk = map[*ssa.Function][]*ssa.MakeClosure{}
+		for _, f := range rz.w.ModFuncs {
+			for _, b := range f.Blocks {
+				for _, in := range b.Instrs {
+					if mc, ok := in.(*ssa.MakeClosure); ok {
+						if t, ok := mc.Fn.(*ssa.Function); ok {
+							rz.mk[t] = append(rz.mk[t], mc)
+						}
+					}
+				}
+			}
+		}
+	}
+	return rz.mk[fn]
+}
+
+// storesTo: the stores whose address is addr; for a global the package's functions are scanned.
+func (rz *c17Resolver) storesTo(addr ssa.Value) []*ssa.Store {
+	var out []*ssa.Store
+	if g, ok := addr.(*ssa.Global); ok {
+		for _, f := range rz.w.ModFuncs {
+			if g.Pkg == nil || fnPkg(f) != g.Pkg.Pkg {
+				continue
+			}
+			for _, b := range f.Blocks {
+				for _, in := range b.Instrs {
+					if st, ok := in.(*ssa.Store); ok && st.Addr == addr {
+						out = append(out, st)
+					}
+				}
+			}
+		}
+		if g.Pkg != nil {
+			if init := g.Pkg.Func("init"); init != nil {
+				for _, b := range init.Blocks {
+					for _, in := range b.Instrs {
+						if st, ok := in.(*ssa.Store); ok && st.Addr == addr {
+							dup := false
+							for _, o := range out {
+								if o == st {
+									dup = true
+								}
+							}
+							if !dup {
+								out = append(out, st)
+							}
+						}
+					}
+				}
+			}
+		}
+		return out
+	}
+	if addr.Referrers() == nil {
+		return nil
+	}
+	for _, r := range *addr.Referrers() {
+		if st, ok := r.(*ssa.Store); ok && st.Addr == addr {
+			out = append(out, st)
+		}
+	}
+	return out
+}
+
+// fieldAddrs: the &base.f instructions for field idx of base (an alloc or a global).
+func (rz *c17Resolver) fieldAddrs(base ssa.Value, idx int) []*ssa.FieldAddr {
+	var out []*ssa.FieldAddr
+	scan := func(f *ssa.Function) {
+		for _, b := range f.Blocks {
+			for _, in := range b.Instrs {
+				if fa, ok := in.(*ssa.FieldAddr); ok && fa.X == base && fa.Field == idx {
+					out = append(out, fa)
+				}
+			}
+		}
+	}
+	if g, ok := base.(*ssa.Global); ok {
+		for _, f := range rz.w.ModFuncs {
+			if g.Pkg != nil && fnPkg(f) == g.Pkg.Pkg {
+				scan(f)
+			}
+		}
+		if g.Pkg != nil {
+			if init := g.Pkg.Func("init"); init != nil && len(out) == 0 {
+				scan(init)
+			}
+		}
+		return out
+	}
+	if base.Referrers() == nil {
+		return nil
+	}
+	for _, r := range *base.Referrers() {
+		if fa, ok := r.(*ssa.FieldAddr); ok && fa.X == base && fa.Field == idx {
+			out = append(out, fa)
+		}
+	}
+	return out
+}
+
+// binding: the value a free variable of fn is bound to, with the function that binds it.
+func (rz *c17Resolver) bindings(fv *ssa.FreeVar) []c17Res {
+	fn := fv.Parent()
+	idx := -1
+	for i, f := range fn.FreeVars {
+		if f == fv {
+			idx = i
+		}
+	}
+	var out []c17Res
+	for _, mc := range rz.closuresOf(fn) {
+		if idx >= 0 && idx < len(mc.Bindings) {
+			out = append(out, c17Res{mc.Bindings[idx], mc.Parent()})
+		}
+	}
+	return out
+}
+
+func (rz *c17Resolver) args(par *ssa.Parameter) []c17Res {
+	fn := par.Parent()
+	idx := -1
+	for i, p := range fn.Params {
+		if p == par {
+			idx = i
+		}
+	}
+	var out []c17Res
+	for _, cs := range rz.w.callGraph().callers[fn] {
+		cc := cs.Instr.Common()
+		args := cc.Args
+		if cc.IsInvoke() {
+			args = append([]ssa.Value{cc.Value}, args...)
+		}
+		if idx >= 0 && idx < len(args) {
+			out = append(out, c17Res{args[idx], cs.Caller})
+		}
+	}
+	return out
+}
+
+// ctx: the context a stored value is attributed to: a package-level variable is set once by
+// the initializer, what matters is the function that reads it; a local is written where it lives.
+func (rz *c17Resolver) ctx(base ssa.Value, st *ssa.Store, reader *ssa.Function) *ssa.Function {
+	if _, isGlobal := base.(*ssa.Global); isGlobal && reader != nil {
+		return reader
+	}
+	// temporaries of the package initializer (a literal built in a local, then copied into the
+	// variable) belong to the same reader
+	if p := st.Parent(); p != nil && p.Synthetic != "" && p.Name() == "init" && reader != nil {
+		return reader
+	}
+	return st.Parent()
+}
+
+// val: the concrete definitions of v.
+func (rz *c17Resolver) val(v ssa.Value, at *ssa.Function, depth int) []c17Res {
+	k := [3]any{"v", v, 0}
+	if v == nil || depth > 10 || rz.seen[k] {
+		return nil
+	}
+	rz.seen[k] = true
+	switch x := v.(type) {
+	case *ssa.Parameter:
+		var out []c17Res
+		for _, a := range rz.args(x) {
+			out = append(out, rz.val(a.V, a.At, depth+1)...)
+		}
+		if len(out) == 0 {
+			return []c17Res{{v, at}}
+		}
+		return out
+	case *ssa.FreeVar:
+		var out []c17Res
+		for _, b := range rz.bindings(x) {
+			out = append(out, rz.val(b.V, b.At, depth+1)...)
+		}
+		return out
+	case *ssa.Phi:
+		var out []c17Res
+		for _, e := range x.Edges {
+			out = append(out, rz.val(e, at, depth+1)...)
+		}
+		return out
+	case *ssa.ChangeType:
+		return rz.val(x.X, at, depth+1)
+	case *ssa.MakeInterface:
+		return rz.val(x.X, at, depth+1)
+	case *ssa.UnOp:
+		if x.Op == token.MUL {
+			return rz.load(x.X, at, depth+1)
+		}
+	case *ssa.Field:
+		return rz.field(x.X, x.Field, at, depth+1)
+	}
+	return []c17Res{{v, at}}
+}
+
+// load: the values stored at addr.
+func (rz *c17Resolver) load(addr ssa.Value, at *ssa.Function, depth int) []c17Res {
+	k := [3]any{"l", addr, 0}
+	if depth > 10 || rz.seen[k] {
+		return nil
+	}
+	rz.seen[k] = true
+	var out []c17Res
+	switch x := addr.(type) {
+	case *ssa.Alloc, *ssa.Global:
+		for _, st := range rz.storesTo(addr) {
+			out = append(out, rz.val(st.Val, rz.ctx(addr, st, at), depth+1)...)
+		}
+	case *ssa.FreeVar:
+		for _, b := range rz.bindings(x) {
+			out = append(out, rz.load(b.V, b.At, depth+1)...)
+		}
+	case *ssa.FieldAddr:
+		for _, base := range rz.val(x.X, at, depth+1) {
+			out = append(out, rz.fieldAt(base.V, x.Field, base.At, depth+1)...)
+		}
+	case *ssa.Parameter:
+		for _, a := range rz.args(x) {
+			out = append(out, rz.load(a.V, a.At, depth+1)...)
+		}
+	}
+	return out
+}
+
+// fieldAt: the values of field idx of the struct stored at base (alloc, global).
+func (rz *c17Resolver) fieldAt(base ssa.Value, idx int, at *ssa.Function, depth int) []c17Res {
+	k := [3]any{"f", base, idx}
+	if depth > 10 || rz.seen[k] {
+		return nil
+	}
+	rz.seen[k] = true
+	var out []c17Res
+	switch base.(type) {
+	case *ssa.Alloc, *ssa.Global:
+		for _, fa := range rz.fieldAddrs(base, idx) {
+			for _, st := range rz.storesTo(fa) {
+				out = append(out, rz.val(st.Val, rz.ctx(base, st, at), depth+1)...)
+			}
+		}
+		for _, st := range rz.storesTo(base) { // whole-struct stores
+			out = append(out, rz.field(st.Val, idx, rz.ctx(base, st, at), depth+1)...)
+		}
+	}
+	return out
+}
+
+// field: the values of field idx of the struct value s.
+func (rz *c17Resolver) field(s ssa.Value, idx int, at *ssa.Function, depth int) []c17Res {
+	k := [3]any{"s", s, idx}
+	if s == nil || depth > 10 || rz.seen[k] {
+		return nil
+	}
+	rz.seen[k] = true
+	var out []c17Res
+	switch x := s.(type) {
+	case *ssa.UnOp:
+		if x.Op == token.MUL {
+			switch b := x.X.(type) {
+			case *ssa.Alloc, *ssa.Global:
+				return rz.fieldAt(x.X, idx, at, depth+1)
+			case *ssa.FreeVar:
+				for _, bd := range rz.bindings(b) {
+					out = append(out, rz.fieldAt(bd.V, idx, bd.At, depth+1)...)
+				}
+			default:
+				for _, base := range rz.val(x.X, at, depth+1) {
+					out = append(out, rz.fieldAt(base.V, idx, base.At, depth+1)...)
+				}
+			}
+		}
+	case *ssa.Parameter:
+		for _, a := range rz.args(x) {
+			out = append(out, rz.field(a.V, idx, a.At, depth+1)...)
+		}
+	case *ssa.FreeVar: // bound receiver of a method value
+		for _, b := range rz.bindings(x) {
+			out = append(out, rz.field(b.V, idx, b.At, depth+1)...)
+		}
+	case *ssa.Phi:
+		for _, e := range x.Edges {
+			out = append(out, rz.field(e, idx, at, depth+1)...)
+		}
+	case *ssa.ChangeType:
+		return rz.field(x.X, idx, at, depth+1)
+	}
+	return out
+}
+
+// c17PointOfKey: the point whose rotation value a cache key is computed from.
+func (a *c17Anchors) pointOfKey(key ssa.Value, depth int) ssa.Value {
+	if depth > 6 {
+		return nil
+	}
+	switch x := key.(type) {
+	case *ssa.Extract:
+		return a.pointOfKey(x.Tuple, depth+1)
+	case *ssa.Call:
+		f := staticCallee(x.Common())
+		args := x.Common().Args
+		if f != nil && inModule(f) && f.Signature.Recv() != nil && isNamed(f.Signature.Recv().Type(), c17PkgRdv, "Point") && len(args) > 0 {
+			return args[0]
+		}
+		for _, arg := range args {
+			if c17IsByteSlice(arg.Type()) || c17IsString(arg.Type()) {
+				if p := a.pointOfKey(arg, depth+1); p != nil {
+					return p
+				}
+			}
+		}
+	case *ssa.UnOp:
+		if x.Op == token.MUL {
+			if al, ok := x.X.(*ssa.Alloc); ok && al.Referrers() != nil {
+				for _, r := range *al.Referrers() {
+					if st, ok := r.(*ssa.Store); ok && st.Addr == ssa.Value(al) {
+						if p := a.pointOfKey(st.Val, depth+1); p != nil {
+							return p
+						}
+					}
+				}
+			}
+		}
+	}
+	return nil
 }
 
 // c17Registrars: functions that store one of their parameters in both caches -> parameter index.
@@ -2281,10 +2676,30 @@ func c17RunD3Cache(c *Ctx, a *c17Anchors) {
 				rs := rootsOf(provCfg{W: w, InlineResults: true}, ac.Key)
 				rsUp := rootsOf(provCfg{W: w, InlineResults: true, FollowCallers: true, MaxDepth: 4}, ac.Key)
 				fresh := c17HasRoot(rs, c17FreshRoot) || c17HasRoot(rsUp, c17FreshRoot)
-				stale := c17HasRoot(rs, func(k string) bool { return strings.HasPrefix(k, "param:") && strings.HasSuffix(k, "."+a.fRot) })
+				// the point whose key is deleted, resolved through receiver fields of method values,
+				// captured variables and parameters to where it was built
+				viaValue := ""
+				if pt := a.pointOfKey(ac.Key, 0); pt != nil {
+					for _, res := range newC17Resolver(w).val(pt, fn, 0) {
+						if rc, ok := res.V.(*ssa.Call); ok {
+							if f := staticCallee(rc.Common()); f != nil && (f == a.newPoint || f == a.nextPoint) {
+								fresh = true
+								viaValue = fnName(f) + "() in " + fnName(res.At)
+							}
+						}
+					}
+				}
+				// a rotation value of some point: a parameter/receiver path ending in the rotation field,
+				// or the result of the exported rotation accessors
+				stale := c17HasRoot(rs, func(k string) bool {
+					if strings.HasPrefix(k, "param:") && strings.HasSuffix(k, "."+a.fRot) {
+						return true
+					}
+					return (strings.HasPrefix(k, "via:") || strings.HasPrefix(k, "call:")) && (strings.HasSuffix(k, ").RotationTopic") || strings.HasSuffix(k, ").RawRotationTopic"))
+				})
 				switch {
 				case fresh:
-					c.fail("D3", construct, posOf(ac.Instr), "the clean-up deletes the rotation entry of the point built by the rotation (key <- {%s}): after the delay the current rotation value is refused", c17Brief(rs)+"; through callers: "+c17FreshNames(rsUp))
+					c.fail("D3", construct, posOf(ac.Instr), "the clean-up deletes the rotation entry of the point built by the rotation (key <- {%s}): after the delay the current rotation value is refused", c17Brief(rs)+"; through callers: "+c17FreshNames(rsUp)+" "+viaValue)
 				case !stale:
 					c.fail("D3", construct, posOf(ac.Instr), "the clean-up key does not derive from the rotation value of the replaced point (key <- {%s})", c17Brief(rs))
 				case refSig != "" && c17EncSig(rs) != refSig:
@@ -2991,15 +3406,38 @@ func c17RunD5(c *Ctx, a *c17Anchors) {
 				if !fromExp[site.Block()] && !fromLive[site.Block()] {
 					continue // this test does not guard this site
 				}
-				n++
 				c.analysed(fn)
-				construct := fnName(fn) + "+rebuild"
-				// rebuilding a live point for the clock yields the same period's point and is
-				// harmless; keeping an expired one is the defect
-				if !fromExp[site.Block()] {
-					c.fail("D5", construct, posOf(ifi), "the point is rebuilt for the clock only while its deadline is still in the future and kept once it has passed: after the period ends the peer keeps announcing/watching the stale point")
-				} else {
-					c.ok("D5", construct, posOf(ifi), "the point is rebuilt for the current period when its deadline has passed")
+				// one obligation per user: an unexported helper holding the test stands for each of
+				// the functions that call it
+				users := []*ssa.Function{fn}
+				if obj := fn.Object(); obj != nil && !obj.Exported() && fn.Parent() == nil {
+					seenU := map[*ssa.Function]bool{}
+					var callers []*ssa.Function
+					for _, cs := range w.callGraph().callers[fn] {
+						if !seenU[cs.Caller] {
+							seenU[cs.Caller] = true
+							callers = append(callers, cs.Caller)
+						}
+					}
+					if len(callers) > 0 {
+						sort.Slice(callers, func(i, j int) bool { return callers[i].String() < callers[j].String() })
+						users = callers
+					}
+				}
+				for _, u := range users {
+					n++
+					construct := fnName(u) + "+rebuild"
+					via := ""
+					if u != fn {
+						via = " (test in " + fnName(fn) + ")"
+					}
+					// rebuilding a live point for the clock yields the same period's point and is
+					// harmless; keeping an expired one is the defect
+					if !fromExp[site.Block()] {
+						c.fail("D5", construct, posOf(ifi), "the point is rebuilt for the clock only while its deadline is still in the future and kept once it has passed: after the period ends the peer keeps announcing/watching the stale point%s", via)
+					} else {
+						c.ok("D5", construct, posOf(ifi), "the point is rebuilt for the current period when its deadline has passed%s", via)
+					}
 				}
 			}
 		}
@@ -3393,6 +3831,18 @@ func c17DerivesFrom(v ssa.Value, targets map[ssa.Value]bool, seen map[ssa.Value]
 				}
 			}
 		}
+		// a struct field: every store in this function to the same field of the same base
+		if fa, ok := ld.X.(*ssa.FieldAddr); ok && fa.X.Referrers() != nil {
+			for _, r := range *fa.X.Referrers() {
+				if fa2, ok := r.(*ssa.FieldAddr); ok && fa2.X == fa.X && fa2.Field == fa.Field && fa2.Referrers() != nil {
+					for _, r2 := range *fa2.Referrers() {
+						if st, ok := r2.(*ssa.Store); ok && st.Addr == ssa.Value(fa2) && c17DerivesFrom(st.Val, targets, seen) {
+							return true
+						}
+					}
+				}
+			}
+		}
 	}
 	in, ok := v.(ssa.Instruction)
 	if !ok {
@@ -3631,6 +4081,32 @@ func c17RunD7(c *Ctx, a *c17Anchors) {
 	}
 	for _, l := range a.lookups {
 		renewers[l] = true
+	}
+	// module helpers that return a point they renew themselves (depth 2)
+	for iter := 0; iter < 2; iter++ {
+		for _, fn := range w.ModFuncs {
+			if p := fnPkg(fn); p == nil || p.Path() == c17PkgRdv || renewers[fn] || fn.Signature.Results().Len() == 0 {
+				continue
+			}
+			targets := map[ssa.Value]bool{}
+			for _, b := range fn.Blocks {
+				for _, in := range b.Instrs {
+					if xc, ok := in.(*ssa.Call); ok && renewers[staticCallee(xc.Common())] {
+						targets[xc] = true
+					}
+				}
+			}
+			if len(targets) == 0 {
+				continue
+			}
+			for _, r := range returnsOf(fn) {
+				for i, res := range retResults(r) {
+					if isNamed(fn.Signature.Results().At(i).Type(), c17PkgRdv, "Point") && c17DerivesFrom(res, targets, map[ssa.Value]bool{}) {
+						renewers[fn] = true
+					}
+				}
+			}
+		}
 	}
 	sinks := c17FindSinks(a, w)
 	n := 0
